@@ -9,7 +9,7 @@ def fill(add, not_built, KANI, BOTH):
         "DESIGN.md section 3 C01")
     add("C02", BOTH,
         "Every part-distance function of the real crate is proved equal to the frozen reference formula over its full input domain (ring distance 2^24, Q-ratio and length distances 2^16 in every table configuration, checksum distances, bit-sliced body distance over all 2^128 / 2^64 word pairs, every compiled x86 back end over all body pairs), the body-distance selection layer is proved to run exactly one back end on the two bodies for every CPU detection outcome, and compare_with_config is proved to be the sum of the four parts for all pairs of hashes and both modes.",
-        "Trusted: Kani/CBMC, rustc, the /verif spec library. Assumed: stdarch's portable definitions of the x86 intrinsics equal the hardware instructions; Kani's spurious overflow checks inside wrapping SIMD intrinsics (simd_add/sub/mul) are filtered by description. SAT cannot re-associate adder trees, so SSE2/SSE4.1 horizontal sums are proved against a tree-shaped expected value whose equality with the flat sum is a Verus lemma over the same text.",
+        "Trusted: Kani/CBMC, rustc, the /verif spec library. Assumed: stdarch's portable definitions of the x86 intrinsics equal the hardware instructions; the integer add/sub/multiply intrinsics are replaced by wrapping lane-wise models (Intel SDM semantics) because Kani's overflow check on them is followed by an assume that would exclude wrapping inputs. SAT cannot re-associate adder trees, so the SSE2/SSE4.1/AVX2 horizontal sums are proved against a tree-shaped expected value whose equality with the flat sum is a Verus lemma over the same text. The dist_body.probe.* obligations are bounded (structured inputs) and reported as such.",
         "DESIGN.md section 3 C02")
     add("C03", BOTH,
         "The update contract is history-free (view' = ref_feed(view, data), proved by Verus on the real body for all data and states); chunking independence is the Verus lemma feed(s, a++b) = feed(feed(s,a), b) lifted to any sequence of pieces (incl. empty and 1-3 byte pieces, which are the tail paths inside the proved function); finalize takes &self (no interior mutability: source scan) and the finalize obligations assert the generator is unchanged; clone is proved to be the identity on every state.",
@@ -29,7 +29,7 @@ def fill(add, not_built, KANI, BOTH):
         "DESIGN.md section 3 C06")
     add("C07", BOTH,
         "Configuration independence by modularity: every function selected by a build configuration is proved against the SAME functional contract - Pearson/Q-ratio/length tables vs naive code, hex codec table variants (full/half/quarter/min), both bucket memory layouts (one Verus proof of update with the bucket count abstract), naive/SSE2/SSSE3/AVX2 aggregation, pseudo-SIMD 32/64 and SSE2/SSE4.1/AVX2 body distance - and the two run-time dispatchers are proved to return a contract-satisfying back end's result for EVERY CPU detection outcome.",
-        "ARGUED, not explored: the thread-schedule clause (Kani has no threads): the init closure is a pure function of the CPU feature set, every value it can return satisfies the same contract, OnceLock returns one of them (assumed std contract). Non-x86 back ends are not compiled here. Intel-SDM models of 3 intrinsics are assumed.",
+        "ARGUED, not explored: the thread-schedule clause (Kani has no threads): the init closure is a pure function of the CPU feature set, every value it can return satisfies the same contract, OnceLock returns one of them (assumed std contract). Non-x86 back ends are not compiled here. Intel-SDM models of 10 intrinsics are assumed (3 shuffles/packs for aggregation, 7 wrapping add/sub/mul for body distance). The update.chunking_bounded.* obligations for cfg-dependent update paths are bounded and reported as such.",
         "DESIGN.md section 3 C07, section 5")
     add("C08", BOTH,
         "Reflexivity, symmetry, zero-iff-equal, bounds (attained, by cover witnesses), mode consistency and the clear_checksum relation are proved as lemmas over the C02 contracts: per part on the real functions / frozen spec over full domains (Kani), lifted to the total by Verus linear-arithmetic lemmas; max_distance is proved to be the sum of the part maxima.",
